@@ -159,6 +159,7 @@ def _cases(tier, seed):
     out.append({"k": "polyargs", "i": -1})
     out.append({"k": "three"})
     out.append({"k": "digits"})
+    out.append({"k": "cancel"})
     out.append({"k": "twins"})
     out.append({"k": "magnitudes"})
     out.sort(key=lambda c: {"polyargs": 0, "pairs": 1, "arrays": 2}.get(c["k"], 3))
@@ -377,6 +378,23 @@ def run_case(case, R):
                 judge_numeric(R, f"{names} {t} at {vals} by keyword reversed", lambda: p(**dict(reversed(list(zip(names, vals))))), exp, (), ["digits"])
                 judge_poly(R, f"{names} {t} partial {names[0]}=2", lambda: p(**{names[0]: 2}), m.subs({names[0]: V.const(2)}), ["digits", "partial"])
                 judge_poly(R, f"{names} {t} partial {names[-1]}=3", lambda: p(**{names[-1]: 3}), m.subs({names[-1]: V.const(3)}), ["digits", "partial"])
+    elif k == "cancel":
+        # arrays whose coefficients of some monomial cancel ACROSS the elements (sum to zero) or are zero in some elements only:
+        # what is left after a partial evaluation is still a polynomial in every element that has the term
+        names = ("q0", "q1")
+        fam = [spec(names, (2,), [((1, 0), [1, 1]), ((0, 1), [1, -1])]), spec(names, (3,), [((1, 1), [2, -1, -1]), ((0, 1), [0, 3, -3]), ((0, 0), [1, 1, 1])]),
+               spec(names, (2, 2), [((0, 2), [1, -1, 1, -1]), ((1, 0), [0, 0, 2, -2])]), spec(names, (2,), [((0, 1), [0.5, -0.5]), ((2, 0), [1.0, 1.0])], "f8"),
+               spec(names, (4,), [((0, 1), [1, -1, 2, -2]), ((1, 0), [3, 0, -3, 0])])]
+        for sp in fam:
+            p, m = build_checked(sp), model_of(sp)
+            R.state(("cancel", str(sp["t"])))
+            for a in (2, 0, -1):
+                judge_poly(R, f"{sp['t']}(q0={a})", lambda: p(q0=a), m.subs({"q0": V.const(a)}), ["cancel", "partial"])
+                judge_poly(R, f"{sp['t']}({a})", lambda: p(a), m.subs({"q0": V.const(a)}), ["cancel", "partial"])
+                judge_poly(R, f"{sp['t']}(None, {a}) then the rest", lambda: p(None, a), m.subs({"q1": V.const(a)}), ["cancel", "partial"])
+                full = m.subs({"q0": V.const(a), "q1": V.const(3)})
+                judge_numeric(R, f"{sp['t']}({a}, 3)", lambda: p(a, 3), full, tuple(sp["s"]), ["cancel"])
+                judge_numeric(R, f"{sp['t']}(q0={a})(q1=3)", lambda: stage(p(q0=a), q1=3), full, tuple(sp["s"]), ["cancel", "staged"])
     elif k == "three":
         names3 = ("q0", "q2", "q10")
         pool = [[((1, 0, 0), 1), ((0, 1, 1), -2)], [((0, 0, 2), 1), ((0, 0, 0), 3)], [((1, 1, 1), 1)], [((2, 0, 0), 1), ((0, 2, 0), -1), ((0, 0, 1), 2)]]
